@@ -223,7 +223,7 @@ func c09CheckRR(rr dnsmessage.RR, name string, qtype uint16) error {
 			return fmt.Errorf("AAAA %s %v is not an answer to %s/%d", owner, b.AAAA, lname, qtype)
 		}
 	case *dnsmessage.TXT:
-		if len(b.Txt) != 1 || b.Txt[0] != c09TagTxt(name, qtype) || owner != lname {
+		if len(b.Txt) != 1 || b.Txt[0] != c09TagTxt(name, qtype) || (owner != lname && owner != cname) {
 			return fmt.Errorf("TXT %s %q is not an answer to %s/%d", owner, b.Txt, lname, qtype)
 		}
 	case *dnsmessage.CNAME:
